@@ -204,25 +204,25 @@ UNCLAIMED = {}
 
 # workloads added while validating against independently written breaking changes (DESIGN 10.5, rounds 6-8)
 _ADDED = {
-    "C01": " Also: every text over the characters numbers are written with to length 5/6; program text inside error messages written with format-active characters; all two-character continuations of \\x.",
+    "C01": " Also: every text over the characters numbers are written with to length 5/6; program text inside error messages written with format-active characters; all two-character continuations of \\x. A syntax error's line lies inside the text and moves down with it when the same text is parsed further down (far position first).",
     "C02": " Also: compound assignment through every kind of place; operands beyond the range of a double (10^1000) in the exactness laws.",
-    "C03": " Also: 22 assignment forms x 15 scopes (the nearest enclosing binding, and only that one, changes; with no binding the statement fails and defines nothing); defaults with effects for parameters that were passed; functions that outlive the interpret call (and the host environment) they were made in.",
-    "C04": " Also: return from 11 body shapes in functions handed to 37 callback-taking forms; loop variables that have the name of a variable of the same scope; strings with combining marks as loop sources.",
-    "C05": " Also: errors raised by module code in 9 require forms; handlers and finally parts inside a recursive function around the recursive call itself.",
+    "C03": " Also: 22 assignment forms x 15 scopes (the nearest enclosing binding, and only that one, changes; with no binding the statement fails and defines nothing); defaults with effects for parameters that were passed; functions that outlive the interpret call (and the host environment) they were made in. Lookups under scopes of another shape: conditional local defs over all call / loop / closure sequences of length <= 4; method calls whose member is found on a module at the end of a prototype chain (depth 0..3).",
+    "C04": " Also: return from 11 body shapes in functions handed to 37 callback-taking forms; loop variables that have the name of a variable of the same scope; strings with combining marks as loop sources. A comprehension's result is a value of its own: 6 forms x 9 sources x every in-place edit of result and source, compared with the explicit loop.",
+    "C05": " Also: errors raised by module code in 9 require forms; handlers and finally parts inside a recursive function around the recursive call itself. Blocks with an empty body (finally and handlers still behave).",
     "C06": " Also: the same value along up to 14 construction routes (literals, parse_json, eval of its text, library assembly, edit sequences, documented defs), every pair interchangeable under 14 observations.",
     "C07": " Also: ints beyond the range of a double next to the largest doubles; years with fewer than four digits.",
     "C08": " Also: values produced by conversions of host data and by library calls (payload types, numeral grammar, round trip), and values that hold one container object more than once.",
-    "C09": " Also: every value handed back to a secure program is walked for OS-touching function values; first use in a fresh process with the monitor armed while the interpreter is built; flag attempts in the interpreter's own scope.",
-    "C10": " Also: function definitions after the failure point of a failing call; loops over a session variable's name; functions made under a host environment and used by later calls.",
-    "C11": " Also: module names that end in the characters of the extension, with and without .ckl in all four combinations.",
+    "C09": " Also: every value handed back to a secure program is walked for OS-touching function values; first use in a fresh process with the monitor armed while the interpreter is built; flag attempts in the interpreter's own scope. Both command-line hosts with the secure switch in 10 spellings/positions, a fresh child each: every attempt refused, canary unchanged.",
+    "C10": " Also: function definitions after the failure point of a failing call; loops over a session variable's name; functions made under a host environment and used by later calls. Two interpreters of one process (16 mode pairs, fresh and used) reach no common list/set/map/object from their scopes, and in-place edits of what one was born with do not show in the other.",
+    "C11": " Also: module names that end in the characters of the extension, with and without .ckl in all four combinations. One require site given another module name each time (all sequences <= 4 over 3 modules x 4 forms x loop/function); one interpreter called from host scopes of 5 shapes in sampled orders.",
     "C12": " Also: all enumeration forms of one set agree with list(); the language's < is a strict total order on every generated collection and on whole pools (mixed kinds, objects with equal text); non-int seeds.",
     "C13": " Also: every call made must return a value of the language (wrapper on invoke); a sample of calls as whole one-expression programs; containers that hold themselves; _proto_ circles entered from outside.",
-    "C15": " Also: elements with the same host payload but another kind; key functions undefined beyond the hit; strings with combining marks; length against addressed positions; the same insert_at / delete_at call site evaluated again.",
-    "C16": " Also: the operands of every operator / indexing / iteration form snapshotted directly before and after; new() on a three-level class chain.",
+    "C15": " Also: elements with the same host payload but another kind; key functions undefined beyond the hit; strings with combining marks; length against addressed positions; the same insert_at / delete_at call site evaluated again. Slice results edited in place (empty ones included) leave the sequence and later slices as they were.",
+    "C16": " Also: the operands of every operator / indexing / iteration form snapshotted directly before and after; new() on a three-level class chain. Every probe's result edited in each way it takes, next to values built before and after by the same expression; index-like argument triples for every 3-ary callee.",
     "C17": " Domain 0001-01-01..9999-12-31 (3 652 059 days).",
     "C18": " Also: placeholders laid out with blanks, tabs and line breaks.",
     "C19": " Also: NULL, booleans and mixed kinds as elements of the set operations; gcd / lcm to 2^400 and on neighbouring Fibonacci numbers.",
-    "C20": " Also: number-like words among the token samples; modules first loaded under an alias keep their own name.",
+    "C20": " Also: number-like words among the token samples; modules first loaded under an alias keep their own name. Module names ending in letters of the file suffix.",
 }
 for _k, _v in _ADDED.items():
     CLAIMED[_k]["text"] = CLAIMED[_k]["text"] + _v
